@@ -7,7 +7,7 @@ chk, tier, log = sys.argv[1], sys.argv[2], sys.argv[3]
 kf = json.load(open('/verif/known_findings.json'))
 have = {f['signature'] for f in kf['findings']}
 n = max([int(f['id'].split('-')[-1]) for f in kf['findings'] if f['property'] == chk] + [0])
-for m in re.finditer(r'unlisted violation signature \(run (\d+)\): (\S.*)', open(log).read()):
+for m in re.finditer(r'unlisted violation signature \(run (\d+)\): (\S.*)', open(log, errors='replace').read()):
     run, sig = m.group(1), m.group(2).strip()
     if sig in have:
         continue
